@@ -259,6 +259,14 @@ func (fr *Frame) invoke(ctx *callCtx) Val {
 		}
 		return fr.staticCall(ctx, target)
 	}
+	if k := ifaceMethodKey(ctx.common); k != "" {
+		if c := e.prog.Contracts[k]; c != nil {
+			// assumed contract on a dependency behind one of layer's expected-keeper interfaces
+			e.note("assumed", "assumed contract on dependency: "+k)
+			cs := sigOfMethod(ctx.common)
+			return fr.logRetSig(ctx, cs, fr.contractCallSig(ctx, cs, c))
+		}
+	}
 	if pureInvoke(ctx.common) {
 		return fr.pureHavoc(ctx)
 	}
